@@ -243,7 +243,20 @@ fn parse_pairs(s: &str) -> Option<Vec<(Spec, i32)>> {
 }
 
 fn from_kv(form: &str, variant: &str, ps: &[(Spec, i32)]) -> Reg {
-    let names: Vec<String> = ps.iter().map(|(k, _)| k.to_string()).collect();
+    // `…Alias` variants spell every other fixed-isotope key with a leading zero (`C[013]`): another text, the same key
+    let alias = variant.ends_with("Alias");
+    let variant = variant.trim_end_matches("Alias");
+    let names: Vec<String> = ps
+        .iter()
+        .enumerate()
+        .map(|(i, (k, _))| {
+            if alias && i % 2 == 1 && k.isotope != 0 {
+                format!("{}[0{}]", k.element.symbol, k.isotope)
+            } else {
+                k.to_string()
+            }
+        })
+        .collect();
     // `&'static str` keys are required by the string constructors
     let strs: Vec<(&'static str, i32)> = names
         .iter()
